@@ -157,10 +157,47 @@ def exec_case(case, real=False):
     model = {}  # pos -> display-orientation array
     amb = {}  # pos -> mask of pixels not judged
     n_written = 0
+    fault = case.get("read_fault") if not real else None
+    fault_fired = {"n": 0, "fired": False}
+    reported = False
     with fresh_dir("c06-") as d:
         pio = PyramidIO(d, default_format=fmt)
+        if case.get("warmup"):
+            # the process has sampled a layer of the same depth in the OTHER coordinate system before (another pyramid)
+            from toasty import toast as _toast
+
+            with toasty_call("sampling", "sampling a layer of the same depth in the other coordinate system beforehand"):
+                _toast.sample_layer(PyramidIO(os.path.join(d, "warmup-other-system"), default_format="npy"), make_sampler({"w": [0.1, 0.2, 0.97]}, "F32"), depth,
+                                    coordsys=cs_of(not planetary), parallel=1)
+            pio = PyramidIO(os.path.join(d, "main"), default_format=fmt)
         for ci, call in enumerate(case["calls"]):
-            run_call(pio, call, case, k, case.get("sched"), real)
+            if fault and fault[0] == ci and call["kind"] != "clobber":
+                # one transient I/O error (EIO) at the fault[1]-th tile read of this updating call: the call may fail - visibly -
+                # but if it returns normally the layer has to be what the model says
+                import errno
+                from toasty.image import ImageLoader
+
+                orig_load = ImageLoader.load_path
+
+                def load_path(self, path, _o=orig_load):
+                    fault_fired["n"] += 1
+                    if fault_fired["n"] == fault[1] and not fault_fired["fired"] and os.path.exists(path):
+                        fault_fired["fired"] = True
+                        raise OSError(errno.EIO, "Input/output error (injected by the harness)", path)
+                    return _o(self, path)
+
+                ImageLoader.load_path = load_path
+                try:
+                    run_call(pio, call, case, k, case.get("sched"), real)
+                except Violation as v:
+                    if fault_fired["fired"] and v.clause == "sampling" and " raised " in v.msg:
+                        reported = True  # the failure was reported to the caller; what is on disk is not judged
+                        break
+                    raise
+                finally:
+                    ImageLoader.load_path = orig_load
+            else:
+                run_call(pio, call, case, k, case.get("sched"), real)
             if call["kind"] == "clobber":
                 leaves = set(rp.all_positions(depth)) if depth == 0 else set(p for p in rp.all_positions(depth) if p[0] == depth)
             else:
@@ -250,6 +287,10 @@ def exec_case(case, real=False):
         cls.append("through-Builder.toast_base")
     if fmt == "fits":
         cls.append("bottom-up")
+    if case.get("warmup"):
+        cls.append("other-system-sampled-first")
+    if fault_fired["fired"]:
+        cls.append("read-fault-reported" if reported else "read-fault-survived")
     return Outcome(classes=cls, nontrivial=depth == 0 or n_written >= 2, info={"tiles": n_written})
 
 
@@ -295,11 +336,15 @@ def strat(draw, tier, real=False):
     case = {"format": fmt, "mode": mode, "depth": depth, "planetary": draw(st.booleans()), "calls": calls, "k": k}
     if k > 1 and not real:
         case["sched"] = draw(scen.schedules(max_size=100))
+    if draw(st.integers(0, 3)) == 0:
+        case["warmup"] = True
+    if not real and len(calls) == 2 and calls[1]["kind"] == "update" and draw(st.booleans()):
+        case["read_fault"] = [1, draw(st.sampled_from([1, 1, 2, 3]))]
     return case
 
 
 PARTS = [
-    Part("sample_layer", exec_case, strategy=lambda tier: strat(tier), examples={"quick": 160, "thorough": 5000}, shards={"quick": 16, "thorough": 16},
+    Part("sample_layer", exec_case, strategy=lambda tier: strat(tier), examples={"quick": 240, "thorough": 5000}, shards={"quick": 16, "thorough": 16},
          budget_s={"quick": 80, "thorough": 1500}, engine="serial for k=1, A for k>=2", describe="histories of 1-2 sampling calls x formats x systems x k"),
     Part("sample_layer_realmp", exec_real, strategy=lambda tier: strat(tier, real=True), examples={"quick": 24, "thorough": 300}, shards={"quick": 8, "thorough": 16},
          budget_s={"quick": 70, "thorough": 1200}, shrink=False, engine="R (real multiprocessing)", describe="the same on real multiprocessing with 2-4 workers"),
